@@ -66,6 +66,7 @@ one_write(uint32_t addr, uint32_t n, const unsigned char *words, const char *pat
     }
     /* registers in ascending order: overlay and judge; only the first failing one counts */
     int overl[RT_MAXREGS], nover = 0;
+    int unknowable = 0; /* a register in an area without read callback is overlaid only in part: what it would hold cannot be told */
     for (int i = 0; i < d->nregs && n > 0; i++) {
         const struct rt_reg *r = &d->reg[i];
         uint32_t rsz = rt_tsize[r->type];
@@ -74,6 +75,15 @@ one_write(uint32_t addr, uint32_t n, const unsigned char *words, const char *pat
         overl[nover++] = i;
         if (firstbad)
             continue;
+        {
+            int rai = rt_area_of(d, r->addr);
+            if (rai >= 0 && d->area[rai].noread && (r->addr < addr || (uint64_t)r->addr + rsz > (uint64_t)addr + n)) {
+                app[napp++] = (struct fail){ REG_ACCESS_FAILURE, r->addr };
+                firstbad = r;
+                unknowable = 1;
+                continue;
+            }
+        }
         unsigned char tmp[8];
         memcpy(tmp, rt_model_word(&inst, r->addr), 2 * rsz);
         for (uint32_t w = 0; w < rsz; w++) {
@@ -134,6 +144,10 @@ one_write(uint32_t addr, uint32_t n, const unsigned char *words, const char *pat
         for (int k = 0; k < napp; k++)
             if ((int)a.code == app[k].code && a.address == app[k].addr)
                 matched = 1;
+        if (unknowable && a.code != REG_ACCESS_SUCCESS) {
+            matched = 1; /* which class and address such a refusal carries is not stated */
+            VH_COUNT("partial overlay of a register whose area cannot be read (refused)");
+        }
         const char *cls = app[0].code == REG_ACCESS_NOENTRY ? "unmapped" : app[0].code == REG_ACCESS_READONLY
                           ? "read-only" : app[0].code == REG_ACCESS_INVALID ? "invalid" : "out-of-range";
         vh_countf("outcome: %s", napp > 1 ? "several failure classes apply" : cls);
@@ -228,6 +242,8 @@ make_words(vh_rng *rg, uint32_t addr, uint32_t n, int pattern, unsigned char *wo
 
 static const char *patname[] = { "identity", "acceptable", "beyond-bound", "bad-float", "random", "ones", "zeros" };
 
+static const struct rt_desc *forced_table; /* a description handed in by another unit */
+
 static void
 u_table(uint64_t idx, void *arg)
 {
@@ -236,7 +252,9 @@ u_table(uint64_t idx, void *arg)
     vh_unit_rng(&rg, "table", idx);
     vh_arena_reset();
     struct rt_desc d;
-    if (!rt_gen_curated(&rg, (unsigned)idx, &d, 1))
+    if (forced_table)
+        d = *forced_table;
+    else if (!rt_gen_curated(&rg, (unsigned)idx, &d, 1))
         rt_gen_wellformed(&rg, &d, 1);
     else
         VH_COUNT("curated layout");
@@ -364,9 +382,67 @@ u_table(uint64_t idx, void *arg)
                   idx, rt_describe(&d), nwrites);
 }
 
+/* a device area that can only be written (no read callback) with registers in it, next to a memory area: blocks that
+ * replace such registers completely are judged like any other, blocks that would leave part of one as it is cannot
+ * be validated and are refused */
+static void
+u_noread(uint64_t idx, void *arg)
+{
+    struct rt_desc d;
+    vh_rng rg;
+    vh_unit_rng(&rg, "noread", idx);
+    memset(&d, 0, sizeof d);
+    d.bigendian = (int)(idx & 1);
+    d.nareas = 2;
+    const int dev_first = (int)(idx >> 1) & 1;
+    struct rt_area *mem = &d.area[dev_first ? 1 : 0], *dev = &d.area[dev_first ? 0 : 1];
+    d.area[0].base = 0x200;
+    d.area[0].size = dev_first ? 9 : 4;
+    d.area[1].base = d.area[0].base + d.area[0].size;
+    d.area[1].size = dev_first ? 4 : 9;
+    mem->readable = mem->writeable = mem->has_write = 1;
+    dev->readable = dev->writeable = dev->has_write = 1;
+    dev->custom = 1;
+    dev->noread = 1;
+    /* registers: the device area gets u16, u32 with a minimum, u64, u16; the memory area u32, u16 */
+    struct { int dev; int type; uint32_t off; int ck; } lay[] = {
+        { 0, REG_TYPE_UINT32, 0, REGV_TYPE_TRIVIAL }, { 0, REG_TYPE_UINT16, 3, REGV_TYPE_TRIVIAL },
+        { 1, REG_TYPE_UINT16, 0, REGV_TYPE_TRIVIAL }, { 1, REG_TYPE_UINT32, 1, REGV_TYPE_MIN },
+        { 1, REG_TYPE_UINT64, 3, REGV_TYPE_TRIVIAL }, { 1, REG_TYPE_SINT16, 8, REGV_TYPE_MAX },
+    };
+    for (int pass = 0; pass < 2; pass++)
+        for (size_t i = 0; i < sizeof lay / sizeof lay[0]; i++) {
+            /* ascending addresses: the area that comes first goes first */
+            if ((lay[i].dev == dev_first) != (pass == 0))
+                continue;
+            struct rt_reg *g = &d.reg[d.nregs++];
+            memset(g, 0, sizeof *g);
+            g->type = lay[i].type;
+            g->addr = (lay[i].dev ? dev->base : mem->base) + lay[i].off;
+            g->ck = lay[i].ck;
+            if (g->ck == REGV_TYPE_MIN) {
+                g->lo.u32 = 0x00010000u;
+                g->def.u32 = 0x00020003u;
+            } else if (g->ck == REGV_TYPE_MAX) {
+                g->hi.s16 = 100;
+                g->def.s16 = -5;
+            } else {
+                g->def = rt_from_bits(g->type, 0x1122334455667788ull);
+            }
+        }
+    forced_table = &d;
+    u_table(idx * 2, arg); /* even: no sanitise past (sanitise reads) */
+    forced_table = NULL;
+    VH_COUNT("table with a write-only device area");
+}
+
 void
 harness_run(void)
 {
+    for (uint64_t i = 0; i < 4; i++)
+        vh_unit("noread", i, u_noread, NULL);
+    vh_require("table with a write-only device area");
+    vh_require("partial overlay of a register whose area cannot be read (refused)");
     uint64_t ntables = vh_tier ? 60000 : 400;
     for (uint64_t i = 0; i < ntables; i++)
         vh_unit("table", i, u_table, NULL);
